@@ -100,6 +100,7 @@ impl Property for P {
                             })
                             .collect(),
                         realtime_ms: 0,
+                        aligned_starts: 0,
                     })
             })
             .boxed()
